@@ -37,6 +37,14 @@ func sweepProgram(c *sim.RunCtx, src []byte, wellBehaved bool, gaps []int, nontr
 			out = nil
 		}
 	}()
+	// a program that iterates a dictionary (after an error has left one on the
+	// stack where the generator meant an array to be) has no single outcome:
+	// PostScript leaves the order open and the interpreter follows Go's map
+	// order.  Such programs are outside what "the state it reaches" can mean.
+	if iteratesDict(src, gen.RefSchedule(), nil, false) {
+		st.Inc("skipped_programs_iterating_a_dictionary(order left open by PostScript)")
+		return nil
+	}
 	// reference: large safety budget, everything in one read
 	ref := runPS(newInterp(c11Big), src, gen.RefSchedule(), nil, sim.Fault{}, nil)
 	T := ref.In.NumOps
@@ -85,6 +93,12 @@ func sweepProgram(c *sim.RunCtx, src []byte, wellBehaved bool, gaps []int, nontr
 	for i := range schs {
 		refT[i] = T
 		cfgRunaway[i] = runaway
+		if (len(cuts[i]) > 0 || goOn[i]) && iteratesDict(src, schs[i], cuts[i], goOn[i]) {
+			// only this call history reaches the dictionary: leave the program
+			// alone altogether
+			st.Inc("skipped_programs_iterating_a_dictionary(order left open by PostScript)")
+			return nil
+		}
 		if runaway {
 			continue
 		}
@@ -140,7 +154,7 @@ func sweepProgram(c *sim.RunCtx, src []byte, wellBehaved bool, gaps []int, nontr
 	if wellBehaved && !runaway && len(gaps) > 0 {
 		cut := sim.Pick(t, gaps)
 		ps := splitAt(src, []int{cut})
-		if len(ps) == 2 {
+		if len(ps) == 2 && !iteratesDict(src, gen.RefSchedule(), []int{cut}, false) {
 			probe := newInterp(0)
 			if e1 := probe.Execute(bytes.NewReader(ps[0])); e1 == nil {
 				n1 := probe.NumOps
@@ -239,6 +253,22 @@ func sweepProgram(c *sim.RunCtx, src []byte, wellBehaved bool, gaps []int, nontr
 		}
 	}
 	return nil
+}
+
+// iteratesDict runs the program once more (same delivery and call history)
+// behind a prologue that makes forall report dictionary operands.
+func iteratesDict(src []byte, sch sim.Schedule, cuts []int, goOn bool) (yes bool) {
+	defer func() {
+		if recover() != nil {
+			yes = false
+		}
+	}()
+	in := newInterp(c11Big)
+	in.ExecuteString("userdict /forall { mark 2 index type /dicttype eq { userdict /VERIF-dict-forall true put } if cleartomark systemdict /forall get exec } put")
+	in.NumOps = 0
+	runPSHistory(in, src, sch, cuts, sim.Fault{}, nil, goOn)
+	_, yes = in.UserDict["VERIF-dict-forall"]
+	return yes
 }
 
 func newInterp(maxOps int) *postscript.Interpreter {
